@@ -69,7 +69,9 @@ namespace options
         void usage(std::ostream& s) const;
 
     private:
-        const parser& parser_;
+        friend class parser;
+
+        const parser* parser_;
         std::string name_;
         std::string description_;
 
